@@ -13,6 +13,7 @@ mod refb;
 mod refwire;
 mod strings;
 mod c01;
+mod c02;
 mod c03;
 mod c04;
 mod c05;
@@ -155,6 +156,7 @@ fn main() {
         let v: serde_json::Value = serde_json::from_str(&text).expect("replay file is not JSON");
         let code = match id.as_str() {
             "C01" => c01::replay(&ctx, &v["replay"]),
+            "C02" => c02::replay(&ctx, &v["replay"]),
             "C03" => c03::replay(&ctx, &v["replay"]),
             "C04" => c04::replay(&ctx, &v["replay"]),
             "C05" => c05::replay(&ctx, &v["replay"]),
@@ -181,6 +183,7 @@ fn main() {
 
     let run = || match id.as_str() {
         "C01" => c01::run(&ctx),
+        "C02" => c02::run(&ctx),
         "C03" => c03::run(&ctx),
         "C04" => c04::run(&ctx),
         "C05" => c05::run(&ctx),
